@@ -284,7 +284,9 @@ def monitor(case, out):
         if w[0] == "cb" and w[1] in ("poll", "io"):
             i = int(w[2]); h = H.get(i); info["cbs"] += 1
             if h is None: raise Bad("harness-inconsistent", f"callback for unknown handle {i}")
-            if w[1] == "io" and i in fed and int(w[3]) == POLLOUT and batch is None:
+            rq0 = h["req"] | POLLERR | POLLHUP
+            if (w[1] == "io" and i in fed and int(w[3]) == POLLOUT and
+                    (batch is None or not any(f == h["fd"] and m & rq0 for f, m in batch[batch_pos[0]:]))):
                 fed.discard(i)
                 if h["closed"]: raise Bad("cb-after-stop", f"pending callback for closed watcher {i}")
                 continue
@@ -310,7 +312,7 @@ def monitor(case, out):
                     rv = last_ready[2]
                     okb = ((RD if rv & (POLLIN | POLLHUP | POLLERR | POLLRDHUP) else 0) |
                            (WR if rv & (POLLOUT | POLLHUP | POLLERR) else 0) |
-                           (DC if rv & (POLLRDHUP | POLLHUP) else 0) | (PR if rv & POLLPRI else 0))
+                           (DC if rv & (POLLRDHUP | POLLHUP | POLLERR) else 0) | (PR if rv & (POLLPRI | POLLHUP | POLLERR) else 0))
                     if ev & ~okb:
                         raise Bad("cb-not-really-ready", f"callback `{l}` but poll(2) on fd {h['fd']} says revents={rv}")
             else:
